@@ -329,3 +329,76 @@ def RtCtx.free (c : RtCtx) (σ : CState) : CState :=
     else σ) σ
 
 end Nmfu
+
+namespace Nmfu
+
+/-! ### List-level view of `feed` (used by the chunk-independence theorems) -/
+
+inductive FeedRes where
+  /-- every byte of the chunk was consumed: `feed` returns OK with the cursor at the end -/
+  | exhausted (σ : CState) (pos : Nat)
+  /-- `feed` returned from the middle: a terminal code, a yield code, or OK without progress -/
+  | returned (σ : CState) (code : String) (pos : Nat)
+  deriving Inhabited
+
+/-- `feed` as a fold over the bytes of the chunk: one call-level dispatch per byte. -/
+def RtCtx.feedL (c : RtCtx) : CState → List Nat → Nat → FeedRes
+  | σ, [], pos => .exhausted σ pos
+  | σ, b :: rest, pos =>
+    let r := c.runTree false (c.M.call c.semOpts σ.state b) σ
+    match r.2 with
+    | .next s _ => c.feedL { r.1 with state := s } rest (pos + 1)
+    | .ret code st adv => .returned { r.1 with state := st } code (pos + min adv 1)
+    | .yielded code st adv => .returned { r.1 with state := st } ("YIELD_" ++ code) (pos + min adv 1)
+
+def isYield (code : String) : Bool := code.startsWith "YIELD_"
+
+def CState.note (σ : CState) (s : String) : CState := { σ with log := σ.log.push s }
+
+structure Sess where
+  σ : CState
+  /-- stopped at a returned code that is not a yield (terminal code, or out of yield fuel) -/
+  stopped : Bool
+  /-- yield re-invocations still allowed -/
+  fuel : Nat
+  deriving Inhabited
+
+/-- A whole session on one contiguous input: call `feed`, re-invoke from the reported cursor after
+    every yield code (each re-invocation spends one unit of `fuel`), stop at any other returned
+    code.  The log records every returned code with its absolute offset.  `off` is the absolute
+    offset of the first byte of `input`. -/
+def RtCtx.runAll (c : RtCtx) : Nat → CState → List Nat → Nat → Sess
+  | 0, σ, input, off =>
+    match c.feedL σ input off with
+    | .exhausted σ' _ => ⟨σ', false, 0⟩
+    | .returned σ' code pos =>
+      let σ'' := σ'.note s!"{code}@{pos}"
+      if isYield code then ⟨σ''.note "yield-fuel", true, 0⟩ else ⟨σ'', true, 0⟩
+  | fuel + 1, σ, input, off =>
+    match c.feedL σ input off with
+    | .exhausted σ' _ => ⟨σ', false, fuel + 1⟩
+    | .returned σ' code pos =>
+      let σ'' := σ'.note s!"{code}@{pos}"
+      if isYield code then c.runAll fuel σ'' (input.drop (pos - off)) pos
+      else ⟨σ'', true, fuel + 1⟩
+
+/-- The same session when the input arrives in chunks: each chunk is fed (with re-invocation
+    after yields) and the next chunk follows when the previous one is exhausted. -/
+def RtCtx.runChunks (c : RtCtx) : Nat → CState → List (List Nat) → Nat → Sess
+  | fuel, σ, [], _ => ⟨σ, false, fuel⟩
+  | fuel, σ, ch :: rest, off =>
+    let r := c.runAll fuel σ ch off
+    if r.stopped then r else c.runChunks r.fuel r.σ rest (off + ch.length)
+
+/-- Structural facts the emitted code relies on, decidable per machine: every consuming leaf
+    advances the cursor exactly once, and no state returns OK without consuming. -/
+def Machine.leavesOK (M : Machine) (o : SemOpts) : Bool :=
+  (List.range M.states.size).all fun s =>
+    (List.range nSym).all fun x =>
+      (M.call o s x).paths.all fun p =>
+        match p.2 with
+        | .next st adv => adv == 1 && st ≥ 0
+        | .ret code _ adv => code != "OK" && code != "SPIN" && adv ≤ 1
+        | .yielded _ _ adv => adv ≤ 1
+
+end Nmfu
